@@ -2,7 +2,7 @@
    Property theorems only; the model is Bac.Ssm (ClientSSM / ServerSSM transcribed from appservice.py with the
    fix: commits of known_findings/C04.json applied), proofs in Bac.SsmC04a / Bac.SsmC04 / Bac.SsmC05. *)
 From Bac Require Import Base PyRt Ssm SsmFacts SsmC04a SsmC04 SsmC04t SsmC04s SsmC04w SsmC04h SsmC05 SsmWorld.
-From Bac Require Iocb IocbFacts.
+From Bac Require Iocb IocbFacts DevCache DevCacheFacts.
 Open Scope Z_scope.
 
 (* over any sequence of inbound frames and time-outs, in any order and at any instants, a client transaction hands
@@ -192,3 +192,59 @@ Example C04_life_example :
                  fresh_client 0 0
                  [(10, Rx (mk_sack 1 12))]) = 1.
 Proof. vm_compute. reflexivity. Qed.
+
+(* ---------- DeviceInfoCache reference counts (model Bac.DevCache, proofs Bac.DevCacheFacts) ---------- *)
+(* over ANY history of I-Ams (new devices, re-announcements, devices changing address or instance, KeyErrors of
+   update_device_info included), transactions being created towards known and unknown peers, transactions finishing in
+   any order and ServerSSM.idle upgrading a record in place: the reference count of every record equals the number of
+   live transactions that hold that record *)
+Theorem C04_refcount_is_live_transactions : forall ops i r,
+  nth_error (DevCache.dc_recs (DevCache.ds_cache (DevCache.dsteps ops DevCache.ds_init))) i = Some r ->
+  DevCache.dr_ref r = DevCache.holders i (DevCache.ds_live (DevCache.dsteps ops DevCache.ds_init)).
+Proof. exact DevCacheFacts.dc_refcount_history. Qed.
+Print Assumptions C04_refcount_is_live_transactions.
+
+(* ... hence after any history the release at the end of any transaction does not raise: ClientSSM/ServerSSM.set_state
+   goes on to hand the outcome to the application; and creating a transaction never raises *)
+Theorem C04_release_never_raises : forall ops k,
+  snd (DevCache.dstep (DevCache.DClose k) (DevCache.dsteps ops DevCache.ds_init)) = None.
+Proof. exact DevCacheFacts.dc_close_never_raises_history. Qed.
+Print Assumptions C04_release_never_raises.
+
+(* no residue: when no transaction is left, no record is referenced *)
+Theorem C04_refcount_zero_at_quiescence : forall ops i r,
+  DevCache.ds_live (DevCache.dsteps ops DevCache.ds_init) = [] ->
+  nth_error (DevCache.dc_recs (DevCache.ds_cache (DevCache.dsteps ops DevCache.ds_init))) i = Some r -> DevCache.dr_ref r = 0.
+Proof. exact DevCacheFacts.dc_quiescent_history. Qed.
+Print Assumptions C04_refcount_zero_at_quiescence.
+
+(* release keeps every record in the cache under the same keys with the same contents, also when the count reaches zero
+   (this cache does not evict): the limits of the peer stay known for the next transaction *)
+Theorem C04_release_keeps_records : forall s k,
+  let s' := fst (DevCache.dstep (DevCache.DClose k) s) in
+  DevCache.dc_by_id (DevCache.ds_cache s') = DevCache.dc_by_id (DevCache.ds_cache s) /\
+  DevCache.dc_by_addr (DevCache.ds_cache s') = DevCache.dc_by_addr (DevCache.ds_cache s) /\
+  length (DevCache.dc_recs (DevCache.ds_cache s')) = length (DevCache.dc_recs (DevCache.ds_cache s)) /\
+  forall i r, nth_error (DevCache.dc_recs (DevCache.ds_cache s)) i = Some r ->
+    exists r', nth_error (DevCache.dc_recs (DevCache.ds_cache s')) i = Some r' /\
+               DevCache.obs_rec (DevCache.set_ref 0 r') = DevCache.obs_rec (DevCache.set_ref 0 r).
+Proof. exact DevCacheFacts.dc_close_keeps_records. Qed.
+Print Assumptions C04_release_keeps_records.
+
+(* non-vacuity: two client transactions and one server transaction share the record of peer 2 (count 3), they finish in
+   another order than they began, an I-Am re-announces the peer in between; a KeyError history exists too *)
+Example C04_devcache_example :
+  DevCache.dc_run [DevCache.DIam 2 2 50 3; DevCache.DOpen 2; DevCache.DOpen 2; DevCache.DOpen 2; DevCache.DIam 2 2 128 3;
+                   DevCache.DClose 1; DevCache.DClose 0; DevCache.DClose 0]
+  = [0; 1; 2; 2; 50; 3; 0; 1; 2; 0; 1; 2; 0; 0;
+     0; 1; 2; 2; 50; 3; 1; 1; 2; 0; 1; 2; 0; 1; 2; 0;
+     0; 1; 2; 2; 50; 3; 2; 1; 2; 0; 1; 2; 0; 2; 2; 0; 2; 0;
+     0; 1; 2; 2; 50; 3; 3; 1; 2; 0; 1; 2; 0; 3; 2; 0; 2; 0; 2; 0;
+     0; 1; 2; 2; 128; 3; 3; 1; 2; 0; 1; 2; 0; 3; 2; 0; 2; 0; 2; 0;
+     0; 1; 2; 2; 128; 3; 2; 1; 2; 0; 1; 2; 0; 2; 2; 0; 2; 0;
+     0; 1; 2; 2; 128; 3; 1; 1; 2; 0; 1; 2; 0; 1; 2; 0;
+     0; 1; 2; 2; 128; 3; 0; 1; 2; 0; 1; 2; 0; 0].
+Proof. vm_compute. reflexivity. Qed.
+Example C04_devcache_keyerror_example :
+  exists ops, snd (DevCache.dstep (DevCache.DIam 1 13 50 3) (DevCache.dsteps ops DevCache.ds_init)) = Some KeyErr.
+Proof. exists [DevCache.DIam 1 10 50 3; DevCache.DIam 2 11 50 3; DevCache.DIam 1 11 50 3; DevCache.DIam 2 12 50 3]. vm_compute. reflexivity. Qed.
